@@ -161,6 +161,11 @@ class Sequence(object):
 
             # we have been enclosed in a context
             elif tag.tagClass == Tag.closingTagClass:
+                if (not element.optional) and ((element.klass in _sequence_of_classes) or (element.klass in _list_of_classes)) \
+                        and (element.context is None):
+                    # empty list
+                    setattr(self, element.name, [])
+                    continue
                 if not element.optional:
                     raise MissingRequiredParameter("%s is a missing required element of %s" % (element.name, self.__class__.__name__))
 
